@@ -39,7 +39,7 @@ Theorem C05_process_attribute_classifies :
   forall text r qn eq prefix local value c c',
   process_attribute text r qn eq prefix local value c = Ok c' ->
   d_attrs (c_doc c') = d_attrs (c_doc c) /\ d_nodes (c_doc c') = d_nodes (c_doc c) /\
-  (if bytes_eqb (slice_bytes text prefix) xmlns_str || bytes_eqb (slice_bytes text local) xmlns_str
+  (if bytes_eqb (slice_bytes text prefix) xmlns_str || ((slice_len prefix =? 0) && bytes_eqb (slice_bytes text local) xmlns_str)
    then c_cur_attrs c' = c_cur_attrs c
    else exists v, c_cur_attrs c' = c_cur_attrs c ++
           [{| ta_prefix := prefix; ta_local := local; ta_value := v; ta_range := r;
